@@ -144,7 +144,17 @@ func c09DivClass(src string, w int, vec, got, want *big.Int) string {
 	return "wrong-value"
 }
 
+// runC09: most cases run alone; some run as concurrent sessions of the same
+// case shape in one process (package-level state in the code under test).
 func runC09(cs *vrt.Case) {
+	if cs.Idx%8 == 3 {
+		cs.Twins(2, func(sub *vrt.Case, _ *vrt.Rng) { runC09One(sub) })
+		return
+	}
+	runC09One(cs)
+}
+
+func runC09One(cs *vrt.Case) {
 	r := cs.Rng
 	var src, what string
 	var prog *mpclgen.Program
